@@ -4,8 +4,8 @@
 (*   {"e":"Run","env":<env id>,"i":<input id>,"o":<opts>,"rc":<int>,           *)
 (*    "so":<sha256(output)>,"se":<sha256(normalised stderr)>,"u":<#uninit>,     *)
 (*    "uf":<top in-repo frame of the first uninitialised-value report | "">}    *)
-(* rc 10 (POSTCONDITION false) = rejected; the line `REJECT {...}` names the     *)
-(* first event that is not enabled and the earlier event it conflicts with.     *)
+(* rc 10 (POSTCONDITION false) = rejected; every line `REJECT {...}` names an     *)
+(* event whose Run was not enabled and the earlier event it conflicts with.     *)
 EXTENDS Naturals, Integers, Sequences, FiniteSets, TLC, Json, IOUtils
 
 Trace == ndJsonDeserialize(IOEnv.TRACE)
@@ -23,13 +23,35 @@ P == INSTANCE Pure WITH Inputs  <- {Trace[k].i : k \in Runs},
                         Envs    <- {Trace[k].env : k \in Runs},
                         None    <- NoRes
 
-Init == P!Init /\ l = 1
+Init == P!Init /\ l = 1 /\ TLCSet(1, 0)
+
+(* A log that is a behaviour of Pure.tla is consumed by Run steps alone.  An event *)
+(* whose Run is not enabled is consumed by Skip, which proves the log is NOT a     *)
+(* behaviour: it prints the witness (the event and the first earlier run of the    *)
+(* same key it conflicts with), counts it in TLC register 1 and leaves `seen`      *)
+(* alone, so that one pass reports every (input, opts) with two results.           *)
+Conflict(k) ==   \* the first earlier run of the same (input, opts) with another result, 0 if none
+  LET c == {j \in 1..(k - 1) : /\ Trace[j].e = "Run"
+                               /\ Trace[j].i = Trace[k].i /\ Trace[j].o = Trace[k].o
+                               /\ Trace[j].u = 0
+                               /\ P!Proj(Res(Trace[j])) # P!Proj(Res(Trace[k]))}
+  IN IF c = {} THEN 0 ELSE CHOOSE j \in c : \A j2 \in c : j <= j2
+
+Witness(k) ==
+  LET j == Conflict(k)
+  IN PrintT("REJECT " \o ToJson([line |-> k, event |-> Trace[k], first_line |-> j,
+                                  first |-> IF j = 0 THEN Trace[k] ELSE Trace[j]]))
 
 Step ==
   /\ l <= NT
   /\ LET ev == Trace[l] IN
        \/ /\ ev.e = "Run"
           /\ P!Run(ev.env, ev.i, ev.o, P!Proj(Res(ev)), ev.u)
+       \/ /\ ev.e = "Run"
+          /\ ~ENABLED P!Run(ev.env, ev.i, ev.o, P!Proj(Res(ev)), ev.u)       \* Skip
+          /\ Witness(l)
+          /\ TLCSet(1, TLCGet(1) + 1)
+          /\ UNCHANGED seen
        \/ /\ ev.e = "Reset"
           /\ seen' = [k \in P!Keys |-> NoRes]
   /\ l' = l + 1
@@ -39,17 +61,5 @@ Spec == Init /\ [][Step]_<<seen, l>>
 (* the behaviour is a single chain: after consuming m events the diameter is m+1 *)
 Consumed == TLCGet("stats").diameter - 1
 
-Conflict(k) ==   \* the first earlier run of the same (input, opts) with another result, 0 if none
-  LET c == {j \in 1..(k - 1) : /\ Trace[j].e = "Run"
-                               /\ Trace[j].i = Trace[k].i /\ Trace[j].o = Trace[k].o
-                               /\ P!Proj(Res(Trace[j])) # P!Proj(Res(Trace[k]))}
-  IN IF c = {} THEN 0 ELSE CHOOSE j \in c : \A j2 \in c : j <= j2
-
-TraceAccepted ==
-  IF Consumed >= NT THEN TRUE
-  ELSE LET k == Consumed + 1
-           j == IF Trace[k].e = "Run" THEN Conflict(k) ELSE 0
-       IN /\ PrintT("REJECT " \o ToJson([line |-> k, event |-> Trace[k], first_line |-> j,
-                                          first |-> IF j = 0 THEN Trace[k] ELSE Trace[j]]))
-          /\ FALSE
+TraceAccepted == Consumed >= NT /\ TLCGet(1) = 0
 =============================================================================
